@@ -44,8 +44,8 @@ def methods_of(db, cls, seen=None):
     return out
 
 
-def table(db, fn, never_false=frozenset()):
-    mon = HooksMonitor(db, never_false)
+def table(db, fn, never_false=frozenset(), linked=None):
+    mon = HooksMonitor(db, never_false, linked)
     ex = Exec(db, mon)
     st = State()
     inp = new_input(st)
@@ -61,8 +61,9 @@ def table(db, fn, never_false=frozenset()):
     return out, mon, viol, ex.steps
 
 
-def check_dispatch(db, fn, out, mon):
-    """assertions H1-H7 on the enumerated table; returns list of (rule, message, row)"""
+def check_dispatch(db, fn, out, mon, enabled_by_class=None):
+    """assertions H1-H7 on the enumerated table; returns list of (rule, message, row).  enabled_by_class: the folded Control< Rule >::enable when the
+    caller knows it (entry points other than the central dispatch): an enabled control must see the start of the attempt on every path"""
     ta = fn['ta']
     A = ta[1]['v']; M = ta[2]['v']
     rule = ta[0].get('s'); action_t = ta[3].get('s'); control_t = ta[4].get('s')
@@ -78,6 +79,8 @@ def check_dispatch(db, fn, out, mon):
         names = [x.split(':')[0] for x in ev]
         row = {'events': list(ev), 'exit': kind, 'value': val, 'cursor': pos}
         if 'start' not in names:
+            if enabled_by_class and 'rule' in names:
+                probs.append(('H1', 'control is enabled for the rule, but the rule is attempted without start (and so without success, failure or unwind)', row))
             if any(x in names for x in ('success', 'failure', 'unwind', 'apply', 'apply0')):
                 probs.append(('H1', 'hook %s without a preceding start' % [x for x in names if x != 'rule'], row))
             # H5: without hooks the result is the rule's
